@@ -50,6 +50,7 @@ def _case(draw):
         "screen": sc,
         "ops": ops,
         "seed": draw(st.integers(0, 2**32 - 1)),
+        "clash_names": draw(st.integers(0, 3)) == 0,
         "fraction": draw(st.one_of(st.sampled_from([0.0, 1.0, 0.1, 0.15, 0.5]), st.floats(min_value=0, max_value=1))),
     }
 
@@ -80,6 +81,11 @@ def check_case(case):
     from batchie.retrospective import create_plate_balanced_holdout_set_among_masked_plates, create_random_holdout
 
     sc = case["screen"]
+    if case.get("clash_names") and sc["observed"]:
+        # the observed plates carry names of the kind the generators hand out themselves (a screen that was generated, partly
+        # revealed and is prepared again)
+        ren_ = {p_: "generated_plate_%d" % i_ for i_, p_ in enumerate(sorted(sc["observed"]))}
+        sc = dict(sc, rows=[dict(r, p=ren_.get(r["p"], r["p"])) for r in sc["rows"]], observed=sorted(ren_.values()))
     labels = []
     counts = collections.Counter()
     for op in case["ops"]:
